@@ -2,11 +2,16 @@ import Pyunicorn.Model.Proto
 import Pyunicorn.Model.Access
 import Pyunicorn.Model.WhileKernels
 import Pyunicorn.Model.LineIdx
+import Pyunicorn.Model.NsiIdx
 import Pyunicorn.Generated.StructC20Pyx
 import Pyunicorn.Generated.StructC20Py
 /-! Line-protocol driver of C20: access traces / verdicts of the raw-pointer
 routines and outcomes of the `while` kernels. -/
 open Pyunicorn Pyunicorn.Proto Pyunicorn.Access
+namespace G
+export Pyunicorn.Generated.StructC20Py (pearson_pysizes pearson_pychecks tmi_pysizes tmi_pychecks
+  tmi_range_min tmi_range_max tmi_scaling)
+end G
 
 def orat (s : String) : Option Rat := if s == "nan" then none else rat? s
 def orats (s : String) : List (Option Rat) := (splitTok s ",").map orat
@@ -19,9 +24,9 @@ def xr (s : String) : XR :=
     | none => .nan
 def xdata (s : String) : List (List XR) := (splitTok s ";").map fun row => (splitTok row ",").map xr
 def xat (d : List (List XR)) (i k : Nat) : XR := (d.getD i []).getD k .nan
-/-- is some float→int conversion undefined over the `n × t` samples? -/
-def xUndef (sc rm : XR) (nb : Int) (d : List (List XR)) (n t : Nat) : Bool :=
-  (List.range n).any fun i => (List.range t).any fun k => (symbolX sc rm nb (xat d i k)).isNone
+def showX : XR → String
+  | .nan => "nan" | .pinf => "inf" | .ninf => "-inf"
+  | .fin r => if r.den == 1 then toString r.num else s!"{r.num}/{r.den}"
 
 def accKey (a : Acc) : Nat × Int × Nat × Nat := (a.arr, a.off, a.w, if a.wr then 1 else 0)
 
@@ -70,6 +75,8 @@ def predictKernel (key : String) (B : Int) (kv : List (String × Int)) : String 
     if es.any (fun e => (sites (envOf e)).any fun s => bad s && !s.cond) then "raise"
     else if es.any (fun e => (sites (envOf e)).any bad) then "either" else "ok"
 
+instance : BEq Verdict := ⟨fun a b => decide (a = b)⟩
+
 def answer (toks : List String) : String :=
   match toks with
   | ["trace", "spearman", m, t] =>
@@ -95,14 +102,15 @@ def answer (toks : List String) : String :=
       -- data / scaling / range_min with infinities (`inf`, `-inf`, `nan` tokens)
       let dd := xdata d
       let nbn := nb.toNat!
-      if xUndef (xr sc) (xr rm) nbn dd n.toNat! t.toNat! then "undefined-conversion" else
+      if !convsOKX 64 n.toNat! t.toNat! (xr sc) (xr rm) nbn (XData.at dd) then "undefined-conversion" else
       showTrace (miSizes n.toNat! t.toNat! nbn) 5
         (miTrace n.toNat! t.toNat! nbn (fun i k => (symbolX (xr sc) (xr rm) nbn (xat dd i k)).getD 0))
   | ["tracex", "tmi", n, t, nb, sc, rm, dO, dS] =>
       let o := xdata dO
       let s := xdata dS
       let nbn := nb.toNat!
-      if xUndef (xr sc) (xr rm) nbn o n.toNat! t.toNat! || xUndef (xr sc) (xr rm) nbn s n.toNat! t.toNat!
+      if !(convsOKX 32 n.toNat! t.toNat! (xr sc) (xr rm) nbn (XData.at o)
+           && convsOKX 32 n.toNat! t.toNat! (xr sc) (xr rm) nbn (XData.at s))
       then "undefined-conversion" else
       showTrace (tmiSizes n.toNat! t.toNat! n.toNat! t.toNat! nbn) 8
         (tmiTrace n.toNat! t.toNat! nbn (fun i k => (symbolX (xr sc) (xr rm) nbn (xat o i k)).getD 0)
@@ -112,9 +120,32 @@ def answer (toks : List String) : String :=
   | ["call", "spearman", mm, mt, m, t] =>
       (spearmanCall mm.toNat! mt.toNat! m.toNat! t.toNat!).str
   | ["call", "pearson", n, t, n2, t2] =>
-      (pearsonCall n.toNat! t.toNat! n2.toNat! t2.toNat!).str
+      -- the hard-coded wrapper model and the one whose shape test / size sources are the *generated*
+      -- tables must agree (`pearsonObjCall_generated`)
+      let a := pearsonCall n.toNat! t.toNat! n2.toNat! t2.toNat!
+      let b := pearsonObjCall G.pearson_pysizes G.pearson_pychecks n.toNat! t.toNat! n2.toNat! t2.toNat!
+      if a == b then a.str else s!"models-split:{a.str}/{b.str}"
   | ["call", "tmi", n, t, n2, t2, nb, dO, dS] =>
-      (tmiCall n.toNat! t.toNat! n2.toNat! t2.toNat! nb.toInt! (odata dO) (odata dS)).str
+      -- NaN | finite data: the round-1 model and the IEEE model with everything generated must agree
+      -- (`tmiCallX_restricts_to_tmiCall`; arrays that are empty are rejected by both)
+      let a := tmiCall n.toNat! t.toNat! n2.toNat! t2.toNat! nb.toInt! (odata dO) (odata dS)
+      let b := tmiObjCallX G.tmi_pysizes G.tmi_pychecks G.tmi_range_min G.tmi_range_max G.tmi_scaling
+        n.toNat! t.toNat! n2.toNat! t2.toNat! nb.toInt! (xdata dO) (xdata dS)
+      if a == b then a.str else s!"models-split:{a.str}/{b.str}"
+  | ["call", "tmix", n, t, n2, t2, nb, dO, dS] =>
+      -- the wrapper on IEEE data (`inf`, `-inf`, `nan` tokens); shape test, size sources, range terms
+      -- and scaling expression are the *generated* ones
+      (tmiObjCallX G.tmi_pysizes G.tmi_pychecks G.tmi_range_min G.tmi_range_max G.tmi_scaling
+        n.toNat! t.toNat! n2.toNat! t2.toNat! nb.toInt! (xdata dO) (xdata dS)).str
+  | ["range", "tmix", dO, dS] =>
+      -- (range_min, range_max, scaling) as the wrapper model computes them
+      match rangeFromX (xdata dO) (xdata dS) G.tmi_range_min G.tmi_range_max with
+      | none => "unreadable"
+      | some (mn, mx) =>
+          showX mn ++ " " ++ showX mx ++ " " ++
+            (match XR.recip (XR.sub mx mn) with
+             | none => "zerodiv"
+             | some s => showX s)
   | ["call", "mi", n, t, nb, zdiv, sc, rm, d] =>
       (miCall n.toNat! t.toNat! nb.toInt! (zdiv == "1") (orat sc) (orat rm) (odata d)).str
   | ["call", "miobj", objn, n, t, nb, zdiv, sc, rm, d] =>
@@ -140,6 +171,14 @@ def answer (toks : List String) : String :=
             (intMat rm) (intMat em) eps2.toInt! (ints mm) with
         | none => "raise"
         | some h => if h.isEmpty then "-" else join (h.map toString)
+  | ["nsiidx", n, k, nbr, wlen, slen, targets] =>
+      -- `_nsi_betweenness` at its own boundary: does the contract hold, and IndexError | returns
+      let N := n.toNat!
+      (if Pyunicorn.NsiIdx.csrOK N (nats k) (nats nbr) wlen.toNat! slen.toNat! (nats targets)
+        then "valid|" else "any|") ++
+      (match Pyunicorn.NsiIdx.nsiBetwIdx N (nats k) (nats nbr) wlen.toNat! slen.toNat! (nats targets) with
+       | none => "raise"
+       | some _ => "ok")
   | ["psites", key, b, kv] => predictKernel key b.toInt! (kvs kv)
   | _ => "bad-request"
 
